@@ -4,6 +4,7 @@
 cd "$(dirname "$0")/.." || exit 2
 for D in seeded/*/; do
   ID=$(basename "$D"); PROP=$(python3 -c "import json;print(json.load(open('$D/meta.json'))['property'])")
+  if grep -q '"superseded_by_fix"' "$D/meta.json"; then echo "$ID: superseded by a fix commit (see meta.json), skipped"; continue; fi
   WT=/tmp/wt-regress-$ID
   git -C /repo worktree remove --force "$WT" 2>/dev/null
   git -C /repo worktree add -q --detach "$WT" HEAD || continue
